@@ -645,4 +645,70 @@ theorem callH_trace (srcs : Nat → Src α) (nsrc : Nat) (num den : PE α) (zero
 
 end call
 
+/-! ### linearity as a DECIDABLE property of a coefficient list (the upstream table is read off the
+list itself) -/
+section decide
+variable [DecidableEq α]
+
+def It.findUp (g : Nat) : It α → Option (It α)
+  | .src _ => none
+  | .tee g' _ u => if g' = g then some u else u.findUp g
+  | .map2 _ a b =>
+    match a.findUp g with
+    | some u => some u
+    | none => b.findUp g
+  | .bl _ _ a => a.findUp g
+  | .br _ a _ => a.findUp g
+
+/-- the upstream of group `g`: the first one written in the list -/
+def upOf (cs : List (HC α)) (g : Nat) : It α :=
+  match cs.findSome? (fun c => match c with | .c _ => none | .s e => e.findUp g) with
+  | some u => u
+  | none => .src 0
+
+def It.decWF : (t : It α) → Decidable t.WF
+  | .src _ => isTrue trivial
+  | .tee g _ u => letI := It.decWF u; inferInstanceAs (Decidable (g ∉ u.groups ∧ u.WF))
+  | .map2 _ a b => letI := It.decWF a; letI := It.decWF b; inferInstanceAs (Decidable (a.WF ∧ b.WF))
+  | .bl _ _ a => It.decWF a
+  | .br _ a _ => It.decWF a
+instance (t : It α) : Decidable t.WF := It.decWF t
+
+def It.decCons (up : Nat → It α) : (t : It α) → Decidable (t.Cons up)
+  | .src _ => isTrue trivial
+  | .tee g _ u => letI := It.decCons up u; inferInstanceAs (Decidable (u = up g ∧ u.Cons up))
+  | .map2 _ a b => letI := It.decCons up a; letI := It.decCons up b
+                   inferInstanceAs (Decidable (a.Cons up ∧ b.Cons up))
+  | .bl _ _ a => It.decCons up a
+  | .br _ a _ => It.decCons up a
+instance (up : Nat → It α) (t : It α) : Decidable (t.Cons up) := It.decCons up t
+
+instance (c : HC α) : Decidable c.WF := by cases c <;> unfold HC.WF <;> infer_instance
+instance (up : Nat → It α) (c : HC α) : Decidable (c.Cons up) := by
+  cases c <;> unfold HC.Cons <;> infer_instance
+
+/-- `Lin` over the groups of a list, every quantifier bounded -/
+def LinL (up : Nat → It α) (gs : List Nat) : Prop :=
+  (∀ g ∈ gs, (up g).WF ∧ (up g).Cons up ∧ g ∉ (up g).groups ∧ (∀ h ∈ (up g).groups, h ∈ gs)
+    ∧ (up g).expo.Nodup)
+  ∧ (∀ g ∈ gs, ∀ h ∈ gs, g ≠ h → ∀ τ ∈ (up g).expo, τ ∉ (up h).expo)
+instance (up : Nat → It α) (gs : List Nat) : Decidable (LinL up gs) := by unfold LinL; infer_instance
+
+theorem LinL.lin {up : Nat → It α} {gs : List Nat} (h : LinL up gs) : Lin up (· ∈ gs) :=
+  ⟨fun g hg => h.1 g hg, fun g k hg hk => h.2 g hg k hk⟩
+
+/-- the coefficient list is a linear forest (decidable: `decide` checks it on any concrete filter) -/
+def Linear (cs : List (HC α)) : Prop :=
+  (∀ c ∈ cs, c.WF ∧ c.Cons (upOf cs)) ∧ LinL (upOf cs) (groupsR cs) ∧ (expoR cs).Nodup
+  ∧ (∀ g ∈ groupsR cs, ∀ τ ∈ expoR cs, τ ∉ (upOf cs g).expo)
+instance (cs : List (HC α)) : Decidable (Linear cs) := by unfold Linear; infer_instance
+
+theorem Linear.reads_once (srcs : Nat → Src α) (cs : List (HC α)) (hl : Linear cs) (n : Nat) (st' : St α)
+    (h : roundsOk srcs cs n St.init st') :
+    (∀ k ∈ srcsR cs, st'.pulls k = n) ∧ (∀ k, k ∉ srcsR cs → st'.pulls k = 0) :=
+  rounds_nested_reads_once srcs hl.2.1.lin cs (fun c hc => (hl.1 c hc).1) (fun c hc => (hl.1 c hc).2)
+    ⟨fun g hg => hg, hl.2.2.1, hl.2.2.2⟩ n st' h
+
+end decide
+
 end ALV.C06.Hub
